@@ -13,10 +13,12 @@ Proved here (for all `dim`, `maxSize`):
  * `emitted_complete_commuting` — every emitted set is a complete involutive D-set of the
    requested dimension, of size 1..maxSize, connected, with commuting far operations;
  * `store_guard_dead`, `counters_consecutive`.
-Not proved (Spec-only, see conf/C06.json open_obligations): completeness and
-irredundancy of the orderly generation, absence of panics inside `check_canonicity`.
+Sections 5–9 add: the generator never panics, the emitted sets are exactly the orderly
+canonical D-sets, irredundancy, existence of a canonical representative in every class,
+completeness, and the whole property as one statement
+(`enumerates_every_class_exactly_once`).  Nothing about the model is left unproved.
 -/
-import DSymVerif.Proofs.DSetGenIso
+import DSymVerif.Proofs.DSetGenRenum
 
 namespace DSymVerif.C06
 open DSymVerif.DS DSymVerif.DSG
@@ -274,21 +276,62 @@ theorem generation_irredundant (dim maxSize : Nat) :
 
 example : IsoBy ⟨2, 1, #[2, 1, 1, 2]⟩ ⟨2, 1, #[2, 1, 1, 2]⟩ id id := IsoBy.refl _
 
-/-! ### 8. not proved: left to the Spec (evaluated on every run) -/
+/-! ### 8. completeness -/
 
-/-- completeness: by `emitted_iff_orderly_canonical` it remains to show that every
-    isomorphism class contains an orderly canonical D-set (a statement about
-    `compare_renumbered_from` alone, not about the search) — decided by the brute-force
-    Spec up to the oracle bounds -/
-def generation_complete_statement : Prop :=
-  ∀ dim maxSize (ds : DSetData), 1 ≤ dim → ValidSet ds → FarCommute ds → Connected ds →
-    ds.dim = dim → 1 ≤ ds.size → ds.size ≤ maxSize →
-    ∃ ds', Outcome.ok ds' ∈ dsets dim maxSize ∧ Iso ds ds'
+/-- Every isomorphism class of connected complete D-sets with commuting far operations
+    contains an orderly canonical member (the lexicographically least breadth-first
+    renumbering; `renum X c` is constructed explicitly in `Proofs/DSetGenRenum.lean`). -/
+theorem canonical_representative {X : DSetData} {maxSize : Nat} (hv : ValidSet X)
+    (hf : FarCommute X) (hc : Connected X) (h1 : 1 ≤ X.size) (hsz : X.size ≤ maxSize) :
+    ∃ T, Iso X T ∧ ValidSet T ∧ FarCommute T ∧ Connected T ∧ Orderly T ∧ Canonical T maxSize := by
+  obtain ⟨T, f, g, hiso, a, b, c, d, e⟩ := exists_canonical hv hf hc h1 hsz
+  exact ⟨T, ⟨f, g, hiso⟩, a, b, c, d, e⟩
 
-/-- the part of it that is open: a canonical representative exists in every class -/
-def canonical_representative_statement : Prop :=
-  ∀ maxSize (ds : DSetData), ValidSet ds → FarCommute ds → Connected ds → 1 ≤ ds.size →
-    ds.size ≤ maxSize →
-    ∃ T, Iso ds T ∧ ValidSet T ∧ FarCommute T ∧ Connected T ∧ Orderly T ∧ Canonical T maxSize
+/-- **Completeness**: every connected complete D-set of dimension `dim ≥ 1` and size
+    1..maxSize in which operations with index distance > 1 commute is isomorphic to an
+    emitted one. -/
+theorem generation_complete {dim maxSize : Nat} (hdim : 1 ≤ dim) {X : DSetData}
+    (hv : ValidSet X) (hf : FarCommute X) (hc : Connected X) (hd : X.dim = dim)
+    (h1 : 1 ≤ X.size) (hsz : X.size ≤ maxSize) :
+    ∃ T, Outcome.ok T ∈ dsets dim maxSize ∧ Iso X T := by
+  obtain ⟨T, f, g, hiso, a, b, c, d, e⟩ := exists_canonical hv hf hc h1 hsz
+  refine ⟨T, ?_, ⟨f, g, hiso⟩⟩
+  exact canonical_emitted hdim a b c (by rw [← hiso.dim_eq]; exact hd)
+    (by rw [← hiso.size_eq]; exact h1) (by rw [← hiso.size_eq]; exact hsz) d e
+
+example : ValidSet (⟨2, 1, #[2, 1, 1, 2]⟩ : DSetData) := by
+  refine ⟨by decide, ?_, ?_⟩ <;>
+  · intro i d hi h1 h2
+    have hi' : i ≤ 1 := hi
+    have h2' : d ≤ 2 := h2
+    have : (i = 0 ∨ i = 1) ∧ (d = 1 ∨ d = 2) := by omega
+    rcases this with ⟨rfl | rfl, rfl | rfl⟩ <;> decide
+
+/-! ### 9. the property -/
+
+/-- **C06 for the model, all dimensions ≥ 1 and all size bounds**: the emitted values are
+    connected complete D-sets of the requested dimension and size 1..maxSize whose far
+    operations commute, they are numbered 1, 2, 3, … in emission order, no two of them are
+    isomorphic (in particular none is emitted twice), every connected complete D-set with
+    the commutation property and size ≤ maxSize is isomorphic to one of them, and nothing
+    panics. -/
+theorem enumerates_every_class_exactly_once {dim maxSize : Nat} (hdim : 1 ≤ dim) :
+    (∀ T, Outcome.ok T ∈ dsets dim maxSize →
+      ValidSet T ∧ FarCommute T ∧ Connected T ∧ T.dim = dim ∧ 1 ≤ T.size ∧ T.size ≤ maxSize) ∧
+    (∃ l, dsetsNumbered dim maxSize = some l ∧
+      dsets dim maxSize = l.map (fun x => Outcome.ok x.1) ∧
+      l.map (·.2) = List.range' 1 l.length) ∧
+    (dsets dim maxSize).Pairwise
+      (fun a b => a ≠ b ∧ ∀ s t, a = Outcome.ok s → b = Outcome.ok t → ¬ Iso s t) ∧
+    (∀ X, ValidSet X → FarCommute X → Connected X → X.dim = dim → 1 ≤ X.size →
+      X.size ≤ maxSize → ∃ T, Outcome.ok T ∈ dsets dim maxSize ∧ Iso X T) := by
+  refine ⟨fun T h => emitted_complete_commuting h, ?_, ?_, ?_⟩
+  · obtain ⟨_, l, hl⟩ := generator_never_panics (maxSize := maxSize) hdim
+    obtain ⟨h1, h2⟩ := counters_consecutive hl
+    exact ⟨l, hl, h1, h2⟩
+  · obtain ⟨h1, h2⟩ := generation_irredundant dim maxSize
+    exact h1.and h2
+  · intro X hv hf hc hd h1 hsz
+    exact generation_complete hdim hv hf hc hd h1 hsz
 
 end DSymVerif.C06
